@@ -33,7 +33,10 @@ def _idents(rep: Report) -> set[tuple[str, str, str]]:
 def _run(mod, root: Path, prop: str) -> tuple[set[tuple[str, str, str]], list[str]]:
     idx = Index(root)
     rep = Report(prop, "thorough")
-    mod.check(idx, rep, "quick")
+    try:
+        mod.check(idx, rep, "quick")
+    except AnalysisError as e:  # as in xsa.check / tools/runall.py: a rule group that stops does not erase earlier findings
+        rep.analysis_errors.append(str(e))
     from . import memo_rule
 
     rep.run(memo_rule.check, idx, rep, prop)
